@@ -733,6 +733,8 @@ def rule_r10_picklable_state(ctx: Ctx) -> None:
                 offending(x, "%s[%r]" % (path, k if not hasattr(k, "__dict__") else "..."), seen, out)
             return
         tn = type(v).__name__
+        if isinstance(v, (range, bytearray, complex)) or tn == "ARange":
+            return  # ranges, byte arrays and complex numbers pickle by value as well
         if tn == "AObj":
             for k in ctx.repo.mro(v._cls_):
                 if isinstance(k, ClassInfo):
